@@ -613,7 +613,7 @@ fn programs(ctx: &mut Ctx) {
             let w = word_extra(&mut ctx.rng, n);
             plan = with_extra(&plan, w);
             tag = "large-word";
-        } else if program && it % 13 == 0 {
+        } else if program && it % 7 == 0 {
             plan = with_extra(&plan, deep_extra(3 + (it % 50) as usize));
             tag = "deep-type";
         }
@@ -1130,16 +1130,20 @@ fn sources(ctx: &mut Ctx) {
         it += 1;
         let jets = it % 3 == 0;
         let cfg = GenCfg {
-            fail: it % 4 == 0,
+            fail: it % 2 == 0,
             jets,
             jet_pool: if jets { progs::simple_jets() } else { vec![] },
             pin_witness: it % 2 == 0,
             share_16: 3 + (it % 8),
             ..GenCfg::default()
         };
-        let base = hole_only(&gen::gen_program(&mut ctx.rng, cfg, 2 + (it % 4) as usize));
+        let mut base = hole_only(&gen::gen_program(&mut ctx.rng, cfg, 2 + (it % 4) as usize));
         if base.nodes.len() > 70 {
             continue;
+        }
+        if it % 6 == 0 {
+            let f = fail_extra(&mut ctx.rng);
+            base = with_extra(&base, f);
         }
         let Some((stmts, mut feats, plan)) = source_of_plan(&mut ctx.rng, &base, &menu, false) else { continue };
         let text = layout(&mut ctx.rng, &stmts, &mut feats);
@@ -1389,7 +1393,7 @@ fn arbitrary(ctx: &mut Ctx, seeds: &[String]) {
         }
     }
     // one text per error kind of the parser, varied
-    for i in 0..ctx.scale(30, 500) {
+    for i in 0..ctx.scale(40, 600) {
         for t in [
             format!("prim{i} := unit\nmain := unit"),
             "_ := unit\nmain := unit".to_string(),
@@ -1397,7 +1401,8 @@ fn arbitrary(ctx: &mut Ctx, seeds: &[String]) {
             format!("a := unit\na := iden : 2^{} -> _\nmain := a", 1 << (i % 9)),
             format!("main := comp jet_nope{i} unit"),
             format!("main := comp (const 0b{}) unit", "1".repeat(1 + (i as usize % 7))),
-            format!("main := fail 0x{}", "ab".repeat(1 + (i as usize % 70))),
+            format!("main := fail 0x{}", "ab".repeat(1 + (i as usize % 24))),
+            format!("main := fail 0x{}", "cd".repeat(65 + (i as usize % 5))),
             format!("main := unit : 2^{} -> 1", 3 + i),
             format!("main := unit : 2^{}{} -> 1", 5 + i, "0".repeat(12)),
             format!("w := witness\nmain := comp (pair w w) unit -- {i}"),
